@@ -410,7 +410,8 @@ def _prec(run, P):
                            "not parenthesized when it contains a weaker operator: "
                            "'(A or B) and C' comes out as 'A .or. B .and. C'")
     power_rule(run, P, "C03.prec", f"{EXPR}.FortranExpressionMapper")
-    from .c01 import forced_parens_rule
+    from .c01 import forced_parens_rule, comparison_rule
+    run.do(comparison_rule, run, P, "C03.prec", f"{EXPR}.FortranExpressionMapper")
     if forced_parens_rule(run, P, "C03.prec", f"{EXPR}.FortranExpressionMapper") < 1:
         raise AnalysisError("FortranExpressionMapper: no handler replaces a pymbolic handler that "
                             "forces parentheses (map_product expected)")
